@@ -19,11 +19,11 @@ class StaleContract(Exception):
 
 
 class VC:
-    __slots__ = ('name', 'hyps', 'goal', 'kind', 'line', 'func', 'result', 'time', 'model', 'expect', 'mode', 'model_dict')
+    __slots__ = ('name', 'hyps', 'goal', 'kind', 'line', 'func', 'result', 'time', 'model', 'expect', 'mode', 'model_dict', 'quant')
 
     def __init__(self, name, hyps, goal, kind='post', line=0, func='', expect='unsat'):
         self.name = name; self.hyps = list(hyps); self.goal = goal; self.kind = kind; self.line = line
-        self.func = func; self.result = None; self.time = 0.0; self.model = None; self.mode = None; self.model_dict = None
+        self.func = func; self.result = None; self.time = 0.0; self.model = None; self.mode = None; self.model_dict = None; self.quant = True
         self.expect = expect      # 'unsat' for proof obligations, 'sat' for cover (vacuity) checks
 
 
